@@ -1089,7 +1089,7 @@ def case_key(case):
 
 def run_programs(R, have_model):
     rng = R.rng
-    nprog = 150 if R.quick else 5000
+    nprog = 400 if R.quick else 5000
     pending = []
     corpus = []
     cdir = os.path.join(os.path.dirname(os.path.dirname(os.path.abspath(__file__))), "corpus", PID)
@@ -1232,7 +1232,7 @@ def run_from_module(R, have_model):
     T = _imports()
     torch, TensorDict = T["torch"], T["TensorDict"]
     rng = R.rng
-    n = 150 if R.quick else 4000
+    n = 300 if R.quick else 4000
     pending = []
     for _ in range(n):
         rich = rng.random() < 0.35
@@ -1575,7 +1575,7 @@ def tdp_model_line(case, init_desc):
 
 def run_tdparams(R, have_model):
     rng = R.rng
-    n = 200 if R.quick else 6000
+    n = 500 if R.quick else 6000
     pending = []
     for _ in range(n):
         case = gen_tdp_case(rng)
@@ -1666,7 +1666,7 @@ def run_vmap(R):
     T = _imports()
     torch = T["torch"]
     rng = R.rng
-    n = 60 if R.quick else 1500
+    n = 120 if R.quick else 1500
     done = 0
     for _ in range(n * 3):
         if done >= n:
@@ -1711,8 +1711,23 @@ def run_vmap(R):
             ref = torch.stack(refs)
             R.count("oracle:vmap-output-compared")
             if out.shape != ref.shape or not torch.equal(out, ref):
-                R.oracle_fail("inside:output", case, {"under": "torch.vmap", "got": out.tolist(), "functional_call": ref.tolist()},
-                              {"call": "to_module as context manager", "defect": "output-differs"})
+                sig = {"call": "to_module as context manager", "defect": "output-differs"}
+                act = actual_memo_slots(case)
+                if act != slots and set(act.items()) <= set(slots.items()):
+                    try:
+                        refs2 = []
+                        for i in range(case["batch"]):
+                            ci = copy.deepcopy(case)
+                            for t in set(slots.values()):
+                                ci["spec"]["tens"][t]["v"] += i
+                            refs2.append(reference_output(ci, act))
+                        ref2 = torch.stack(refs2)
+                        if out.shape == ref2.shape and torch.equal(out, ref2):
+                            sig = {"call": "to_module as context manager", "site": "_td.TensorDict._to_module (memo)",
+                                   "defect": "entries-under-second-name-of-shared-submodule-ignored"}
+                    except Exception:  # noqa: BLE001
+                        pass
+                R.oracle_fail("inside:output", case, {"under": "torch.vmap", "got": out.tolist(), "functional_call": ref.tolist()}, sig)
 
 
 # ====================================================================== main / replay (streams B, C are appended below)
